@@ -562,6 +562,10 @@ class SimDevice:
                 (rem is None or rem > 0):
             rec["stopped_early"] = (st.name, st.received())
             return self._sign_next_part(sg, rec)
+        tail = pol.get("early_tail")   # (part name, k): stop when 0 < remaining <= k
+        if tail and tail[0] == st.name and rem is not None and 0 < rem <= tail[1]:
+            rec["stopped_early"] = (st.name, st.received())
+            return self._sign_next_part(sg, rec)
         if rem is not None and rem <= 0:
             late = pol.get("late", {}).get(st.name, 0)
             if sg["late"] < late:
